@@ -24,7 +24,7 @@ CLASSES = [
 LOGIC = Logic(
     funcs={"IsFile": (["Val[Path]"], "bool"), "ArchRows": (["VersionIndex"], "Seq[Tuple[TaskIdentifier,Version]]"),
            "PathOfStr": (["str"], "Val[Path]")},
-    globals={"g_idx_pending": "bool", "g_idx_commits": "int", "g_restore_ready": "bool", "g_in_restore": "bool",
+    globals={"g_tar": "ArchivePopen", "g_idx_pending": "bool", "g_idx_commits": "int", "g_restore_ready": "bool", "g_in_restore": "bool",
              "g_staging": "Val[Path]", "g_copied": "Set[Val[Path]]#copied"},
 )
 
@@ -66,19 +66,22 @@ CONTRACTS = [
              ensures=["not g_idx_pending", "g_idx_commits == old(g_idx_commits) + 1"],
              trusted_reason="A-SQL: commit is atomic (restore view of VersionIndex.commit_changes)"),
     Contract("ext::ArchivePopen.wait", trusted_reason="waits for tar"),
-    Contract("ext::subprocess.Popen(tar)", params={"args": "List[str]", "shell": "bool"}, returns="ArchivePopen", fresh_result=True,
-             raises={"OSError+": []}, trusted_reason="spawns tar (A-LIB: tar round-trips a directory tree)"),
+    Contract("ext::subprocess.Popen(tar)", params={"args": "List[str]", "shell": "bool"}, returns="ArchivePopen", fresh_result=True, modifies=["g_tar"],
+             ensures=["g_tar == result"],
+             raises={"OSError+": []}, trusted_reason="spawns tar (A-LIB: tar round-trips a directory tree; a truncated or corrupt archive makes tar exit non-zero)"),
 
-    Contract(F + "::extract_archive", params={"archive_file": "Val[Path]", "staging_path": "Val[Path]"}, props=["C12"],
+    Contract(F + "::extract_archive", params={"archive_file": "Val[Path]", "staging_path": "Val[Path]"}, props=["C12", "C11"],
              prefer_ext={"subprocess.Popen": "subprocess.Popen(tar)"},
+             modifies=["g_tar", "$alloc", "ConductorError.extra_context_set", "ConductorError.file_context_set"],
              raises={"ArchiveFileInvalid": []},
-             ensures=[]),
+             # a restore goes on only with an archive that tar unpacked completely (corrupt / truncated archives end here)
+             ensures=[C("only_a_completely_unpacked_archive_is_accepted", "g_tar.returncode == 0", "C12", "C11")]),
 
     Contract(F + "::main", params={"args": "Namespace"}, props=["C12", "C11", "C06", "C08"],
              prefer_ext={"VersionIndex.commit_changes": "VersionIndex.commit_changes(restore)", "VersionIndex.rollback_changes": "VersionIndex.rollback_changes(restore)"},
              locals={"archive_version_index": "Opt[VersionIndex]"},
              requires=[C("index_idle", "not g_idx_pending and not g_restore_ready and not g_in_restore")],
-             modifies=["g_idx_pending", "g_idx_commits", "g_restore_ready", "g_in_restore", "g_staging", "g_dirs", "g_entries", "g_copied", "$alloc",
+             modifies=["g_root_found", "g_tar", "g_idx_pending", "g_idx_commits", "g_restore_ready", "g_in_restore", "g_staging", "g_dirs", "g_entries", "g_copied", "$alloc",
                        "ConductorError.extra_context_set", "ConductorError.file_context_set"],
              ensures=[C("committed_exactly_once", "g_idx_commits == old(g_idx_commits) + 1 and not g_idx_pending", "C12"),
                       C("existing_directories_survive", "forall(d, 'Val[Path]', implies(old(d in g_dirs) and d != g_staging and not IsUnder(d, g_staging), d in g_dirs))", "C12", "C08")],
